@@ -108,6 +108,27 @@ func catalogueC01(full bool, emit func(name string, mk func() packet.Generic)) {
 			return c
 		})
 	}
+	// binary data where the specification says "binary data": password, will payload, publish payload (every byte value,
+	// also sequences that are not UTF-8) - and multi-byte UTF-8 in the string fields
+	bin := make([]byte, 256)
+	for i := range bin {
+		bin[i] = byte(255 - i)
+	}
+	for i, b := range [][]byte{{0xff}, {0x00}, {0xc3, 0x28}, {0xed, 0xa0, 0x80}, bin} {
+		i, b := i, b
+		emit(fmt.Sprintf("CONNECT binary password / will payload #%d", i), func() packet.Generic {
+			c := packet.NewConnect()
+			c.ClientID, c.Username, c.Password = "c\u00e9\u65e5", "u\u00e9", string(b)
+			c.Will = &packet.Message{Topic: "t/\u00e9", Payload: append([]byte{}, b...), QOS: 1}
+			return c
+		})
+		emit(fmt.Sprintf("PUBLISH binary payload #%d", i), func() packet.Generic {
+			p := packet.NewPublish()
+			p.Message = packet.Message{Topic: "t/\u65e5\u672c", Payload: append([]byte{}, b...), QOS: 1}
+			p.ID = 7
+			return p
+		})
+	}
 	// --- CONNACK
 	for _, sp := range []bool{false, true} {
 		for rc := 0; rc <= 5; rc++ {
